@@ -1,5 +1,8 @@
 import Dashu.Proofs.Macro.Words
 import Dashu.Proofs.Macro.Grammar
+import Dashu.Proofs.Macro.RatLoop
+import Dashu.Proofs.Macro.FloatLit
+import Dashu.Proofs.Macro.IntLoop
 /-
   C20 — Literal macros build exactly the number that was written.
 
@@ -50,6 +53,26 @@ theorem int_literal_sound (signed : Bool) (toks : List Tok) (v : Int) (h : intLi
         · simp [e] at h; rw [h]
         · simp [e] at h
 
+/-- **ubig!/ibig! token loop (code since /repo e26a9db) accepts exactly `[sign] value [base [N]]`**
+    (sign only for the signed macros): soundness and completeness -/
+theorem int_loop_accepts_only_the_grammar (signed : Bool) (toks : List Tok) (st : IS)
+    (h : intLoopNew signed {} toks = some st) : toks = renderInt st ∧ IWF signed st :=
+  intLoopNew_sound signed toks st h
+
+theorem int_loop_accepts_the_grammar (signed : Bool) (st : IS) (wf : IWF signed st) :
+    intLoopNew signed {} (renderInt st) = some st := intLoopNew_complete signed st wf
+
+/-- whatever `parse_integer_with_error` accepts (loop, `val.unwrap()`, radix parse) has the value the
+    model prescribes = the run-time parser's on the same text -/
+theorem int_macro_accepts_only_runtime_values (signed : Bool) (toks : List Tok) (neg : Bool) (m : Nat)
+    (htok : ∀ t ∈ toks, isVal t = true → NoSign t.text)
+    (h : intNew signed toks = some (neg, m)) : intLiteral signed toks = some (signedVal neg m) :=
+  intNew_is_literal signed toks neg m htok h
+
+example : intNew true [.punct 45, .lit [49, 102], .ident baseKw, .lit [49, 54]] = some (true, 31) ∧
+    intNew true [.punct 45, .punct 45, .lit [53]] = none ∧ intNew false [.punct 43, .lit [53]] = none := by
+  refine ⟨by decide, by decide, by decide⟩
+
 -- ====================================================================== (b) code generators
 
 /-- **heap path** (`quote_ubig`: `const BYTES = to_le_bytes(n); UBig::from_le_bytes(&BYTES)`) -/
@@ -86,20 +109,73 @@ example : intPath false (2 ^ 32 - 1) = .const ∧ intPath false (2 ^ 32) = .byte
 
 -- ====================================================================== (c) rationals and floats
 
-/-- an accepted `rbig!` literal is in lowest terms, an accepted `rbig!(~…)` literal has no common
-    factor 2 — in particular the `transmute` of `static_rbig!` is applied to a reduced pair -/
-theorem ratio_literal_canonical (toks : List Tok) (q : QVal) (relaxed : Bool) (h : ratLiteral toks = some (q, relaxed)) :
-    (relaxed = false → QReduced q) ∧ (relaxed = true → QRelaxed q) := ratLiteral_canonical toks q relaxed h
+/-- **rbig! token loop (code since /repo e26a9db) — soundness**: whatever the loop accepts is the
+    rendering `[~] [sign] value [/ [sign] value] [base N]` of its final state: every part at most
+    once, in this order, a denominator only after `/`, `base` only after the values -/
+theorem ratio_loop_accepts_only_the_grammar (toks : List Tok) (st : RS) (h : ratLoopNew {} toks = some st) :
+    toks = render st ∧ WF st := ratLoopNew_sound toks st h
 
-/-- an accepted rational literal has the run-time parser's value (zero denominators rejected) -/
-theorem ratio_literal_sound (toks : List Tok) (v : QVal × Bool) (h : ratLiteral toks = some v) :
-    rtRat toks = some (some v) := ratLiteral_sound toks v h
+/-- **completeness**: every token list of that shape is accepted and leads to the state it renders -/
+theorem ratio_loop_accepts_the_grammar (st : RS) (wf : WF st) : ratLoopNew {} (render st) = some st :=
+  ratLoopNew_complete st wf
+
+/-- non-vacuity: `~ - 6 / 9 base 10` -/
+example : WF { rel := true, nSign := some true, nVal := some (.lit [54]), marked := true, dVal := some (.lit [57]),
+               baseMarked := true, base := some [49, 48] } ∧
+    render { rel := true, nSign := some true, nVal := some (.lit [54]), marked := true, dVal := some (.lit [57]),
+             baseMarked := true, base := some [49, 48] } =
+      [.punct 126, .punct 45, .lit [54], .punct 47, .lit [57], .ident baseKw, .lit [49, 48]] := by
+  constructor
+  · unfold WF; simp [isVal]
+  · simp [render, signTok]
+
+/-- **the value**: what `parse_ratio_with_error` computes (unsigned parses of the value tokens, signs
+    from the sign tokens, `from_parts_signed`, reduction) is what the model prescribes — the run-time
+    parser's answer on the text of the literal — on every token list, accepted or rejected -/
+theorem ratio_macro_is_runtime_parse (toks : List Tok)
+    (htok : ∀ t ∈ toks, isVal t = true → NoSign t.text ∧ 47 ∉ t.text) : ratNew toks = ratLiteral toks :=
+  ratNew_eq_ratLiteral toks htok
+
+example : ratNew [.punct 45, .lit [54], .punct 47, .lit [57]] = some (⟨-2, 3⟩, false) := by decide
+
+/-- an accepted `rbig!` literal: documented shape, the run-time parser's value, stored in lowest
+    terms (`~`: without a common factor 2) — in particular the `transmute` of `static_rbig!` is applied
+    to a reduced pair -/
+theorem ratio_literal_spec (toks : List Tok) (q : QVal) (relaxed : Bool) (h : ratLiteral toks = some (q, relaxed)) :
+    ∃ st, toks = render st ∧ WF st ∧ finalOK st ∧ relaxed = st.rel ∧
+      ratRuntime st.rel (ratText st) st.base = some (q, relaxed) ∧
+      (relaxed = false → QReduced q) ∧ (relaxed = true → QRelaxed q) := ratLiteral_spec toks q relaxed h
+
+/-- every literal of the documented grammar is accepted exactly when the run-time parser accepts its text -/
+theorem ratio_literal_complete (st : RS) (wf : WF st) (hf : finalOK st) :
+    ratLiteral (render st) = ratRuntime st.rel (ratText st) st.base := ratLiteral_complete st wf hf
 
 /-- an accepted float literal: representation and precision are the run-time parser's (precision =
     number of digits written) and the representation is normalised -/
 theorem float_literal_spec (binary : Bool) (toks : List Tok) (v : FPVal) (h : floatLiteral binary toks = some v) :
     rtFloat binary toks = some v ∧ FCanon (if binary then 2 else 10) ⟨v.signif, v.exp⟩ :=
   floatLiteral_spec binary toks v h
+
+/-- **float literal = the number written**: a literal `[sign] digits [. digits] [@ exponent]` in base `B`
+    (what `fbig!` / `dbig!` pass to the parser after concatenating the tokens) denotes
+    `± digits · B^(exponent − #fraction digits)` exactly, with precision = number of digits written
+    (C08's `parse_literal_exact` through the parser the macro model runs) -/
+theorem float_literal_exact (B : Nat) (hB : Dashu.Model.Text.validRadix B = true) (up : Bool)
+    (sign : Option Bool) (di : List Nat) (frac : Option (List Nat)) (scale : Option Int)
+    (hdi : ∀ d ∈ di, d < B) (hdf : ∀ d ∈ frac.getD [], d < B) (hne : di ≠ [] ∨ frac.getD [] ≠ [])
+    (hs : ∀ z, scale = some z → -(2 ^ 63 : Int) ≤ z ∧ z < (2 ^ 63 : Int)) :
+    ∃ r : Dashu.Model.Float.FRepr,
+      r.toRat B = (if sign = some true then -1 else 1) *
+        (Dashu.Model.Text.ofDigits B (di ++ frac.getD []) : ℚ) *
+        Dashu.Model.Float.bpowQ B (scale.getD 0 - ((frac.getD []).length : Int)) ∧
+      (inIsize r.exp → floatParse B (Dashu.Model.Text.renderLiteral up sign di frac scale) =
+        some (⟨r.signif, r.exp⟩, di.length + (frac.getD []).length)) :=
+  floatParse_literal B hB up sign di frac scale hdi hdf hne hs
+
+/-- non-vacuity: `-12.5` in base 10 -/
+example : (∀ d ∈ [1, 2], d < 10) ∧ (∀ d ∈ (some [5] : Option (List Nat)).getD [], d < 10) ∧
+    Dashu.Model.Text.renderLiteral false (some true) [1, 2] (some [5]) none = [45, 49, 50, 46, 53] := by
+  refine ⟨by decide, by decide, by decide⟩
 
 -- ====================================================================== findings
 -- the first two: the token loops before /repo e26a9db (fixed); the third: still open
@@ -110,7 +186,7 @@ theorem int_double_sign_accepted :
     rtInt true [.punct 45, .punct 45, .lit [53]] = some none ∧
     intLiteral true [.punct 45, .punct 45, .lit [53]] = none := int_double_sign_counterexample
 
-/-- `rbig!(3 4)` expands to 3/4; the text reads 34 -/
+/-- before e26a9db: `rbig!(3 4)` expanded to 3/4; the text reads 34 (now rejected by the loop) -/
 theorem ratio_missing_slash_accepted :
     ratAsIs [.lit [51], .lit [52]] = some (⟨3, 4⟩, false) ∧
     rtRat [.lit [51], .lit [52]] = some (some (⟨34, 1⟩, false)) ∧
